@@ -1403,6 +1403,8 @@ impl<'a, 'b, W: Write> Serializer for &'a mut YamlSerializer<'b, W> {
         } else {
             // Block sequence. Decide indentation based on whether this is after a map key or after a list dash.
             let was_inline_value = !self.at_line_start;
+            // Value position after `key:` (as opposed to a composite key after `? `).
+            let after_colon = self.pending_space_after_colon;
 
             // If we are a value following a block sibling, force a newline now.
             // However, if a complex-node anchor is pending, we must keep `key: &aN` inline;
@@ -1458,7 +1460,9 @@ impl<'a, 'b, W: Write> Serializer for &'a mut YamlSerializer<'b, W> {
             let depth_next = if inline_first {
                 base + 1
             } else if was_inline_value {
-                if self.compact_list_indent && self.current_map_depth.is_some() {
+                // Compact indentation is for the value after `key:` only; a sequence used as a
+                // composite key (after `? `) must keep its continuation dashes under the first.
+                if self.compact_list_indent && self.current_map_depth.is_some() && after_colon {
                     base
                 } else {
                     base + 1
